@@ -327,8 +327,9 @@ func (m *canaryReleaseManager) doCanaryJump(c *RolloutContext) (jumped bool) {
 		canaryStatus.CurrentStepIndex = nextIndex
 		canaryStatus.NextStepIndex = util.NextBatchIndex(c.Rollout, nextIndex)
 		nextStep := c.Rollout.Spec.Strategy.Canary.Steps[nextIndex-1]
-		// compare next step and current step to decide the state we should go
-		if reflect.DeepEqual(nextStep.Replicas, currentStep.Replicas) {
+		// compare next step and current step to decide the state we should go;
+		// the upgrade can only be skipped if the current step has already completed its own
+		if reflect.DeepEqual(nextStep.Replicas, currentStep.Replicas) && isStepUpgradeDone(currentStepStateBackup) {
 			canaryStatus.CurrentStepState = v1beta1.CanaryStepStateTrafficRouting
 		} else {
 			canaryStatus.CurrentStepState = v1beta1.CanaryStepStateInit
